@@ -134,7 +134,7 @@ func TestC13(t *testing.T) {
 		"(write-backs must be idempotent); every decode of the (identical) encodings during and after the history gives the same deep dump. " +
 		"Non-trivial: the history has >= 2 encodings with a Len in between or goes through a container; distinct by hash of (kind, bytes, history).")
 	c.Assume("the first Len()/MarshalBinary may complete derived fields (header length, rounded lengths): the value is compared from its state after the first encoding onwards, not with its state before")
-	rapid.Check(t, func(rt *rapid.T) {
+	checkRapid(t, c, func(rt *rapid.T) {
 		c.Eval()
 		gv := anyValue(rt, drawBudget(rt))
 		addLabels(c, gv.labels)
